@@ -6,7 +6,7 @@
    (C11_sm4_is_block_cipher). *)
 From Coq Require Import List NArith Arith Bool Lia.
 From Coq Require String.
-From GmsmVerif Require Import Lib.Outcome Gen.SM4Consts SM4.SM4Spec SM4.ModesSpec SM4.ModesModel SM4.ModesProofs SM4.SM4ConstsBlock SM4.SM4ConstsModes.
+From GmsmVerif Require Import Lib.Outcome Gen.SM4Consts SM4.SM4Spec SM4.ModesSpec SM4.ModesModel SM4.ModesProofs SM4.SM4ConstsBlock SM4.SM4ConstsModes SM4.ModesCodeLib Gen.ModesCode SM4.ModesCodeTie.
 Import ListNotations.
 Local Open Scope nat_scope.
 
@@ -247,30 +247,68 @@ Theorem C11_history_sm4 : forall (calls : list mode_call) p, length (IV p) = 16 
 Proof. intros calls p. exact (C11_history _ _ calls p C11_sm4_is_block_cipher). Qed.
 Print Assumptions C11_history_sm4.
 
-(* ---- 9. the constants the model hard-codes are the constants of the source (Gen/SM4Consts.v) ------------------------ *)
-(* BlockSize in pkcs7Padding and SetIV, the 16-byte windows of the four loops, the complete literal sequences of
-   xor, pkcs7Padding, pkcs7UnPadding, SetIV, Sm4Ecb, Sm4Cbc, Sm4CFB, Sm4OFB, and: IV is the only package-level
-   variable of sm4.go besides its mutex ivMu and the constant tables (what record pkg assumes) *)
+(* ---- 9. the model is the source --------------------------------------------------------------------------------------- *)
+(* 9a. The four mode helpers: Gen/ModesCode.v is the statement-by-statement translation of Sm4Ecb / Sm4Cbc / Sm4CFB /
+   Sm4OFB of sm4/sm4.go, regenerated from the source by every check (translator target modescode; vocabulary
+   SM4/ModesCodeLib.v).  It computes the hand-written model for EVERY key, input, package IV and both modes: key
+   length check, padding call, iv := make; copy(iv, currentIV()), out = make, the loop bound, per iteration the
+   slices read (as values: block i / block i-1), the operations and their order (xor, c.Encrypt / c.Decrypt),
+   the window of out written (must be 16*i : 16*i+16), the feedback assignment, the un-padding call and the
+   dropped error.  Slice and loop bounds are compared as values (lia), so naming or hoisting them, renaming
+   locals or writing 16 as BlockSize changes nothing here. *)
+Theorem C11_helpers_are_source : forall E D p key in_ mode,
+  gen_Sm4Ecb (E key) (D key) (IV p) key in_ mode = Sm4Ecb E D p key in_ mode /\
+  gen_Sm4Cbc (E key) (D key) (IV p) key in_ mode = Sm4Cbc E D p key in_ mode /\
+  gen_Sm4CFB (E key) (D key) (IV p) key in_ mode = Sm4CFB E p key in_ mode /\
+  ((forall b, length (E key b) = 16) -> gen_Sm4OFB (E key) (D key) (IV p) key in_ mode = Sm4OFB E p key in_ mode) /\
+  gen_modescode_errors = [].
+Proof.
+  intros. split; [apply gen_Sm4Ecb_eq|]. split; [apply gen_Sm4Cbc_eq|]. split; [apply gen_Sm4CFB_eq|].
+  split; [apply gen_Sm4OFB_eq|]. exact modescode_translated.
+Qed.
+Print Assumptions C11_helpers_are_source.
+
+(* ... so the source's helpers themselves are the standard modes (SM4 instance; the premise of the OFB tie is
+   sm4_E_len) *)
+Theorem C11_source_helpers_sm4 : forall p key in_ mode,
+  let E := sm4_encrypt_block in let D := sm4_decrypt_block in
+  gen_Sm4Ecb (E key) (D key) (IV p) key in_ mode = Sm4Ecb E D p key in_ mode /\
+  gen_Sm4Cbc (E key) (D key) (IV p) key in_ mode = Sm4Cbc E D p key in_ mode /\
+  gen_Sm4CFB (E key) (D key) (IV p) key in_ mode = Sm4CFB E p key in_ mode /\
+  gen_Sm4OFB (E key) (D key) (IV p) key in_ mode = Sm4OFB E p key in_ mode.
+Proof.
+  intros p key in_ mode. cbv zeta.
+  destruct (C11_helpers_are_source sm4_encrypt_block sm4_decrypt_block p key in_ mode) as (H1 & H2 & H3 & H4 & _).
+  repeat split; try assumption. apply H4. intros b. apply sm4_E_len.
+Qed.
+Print Assumptions C11_source_helpers_sm4.
+
+(* 9b. the leaf functions xor, pkcs7Padding and pkcs7UnPadding, translated the same way: the source's functions
+   return the model's values for all operands - xor and pkcs7Padding never panic; pkcs7UnPadding has the model's
+   error classes (1 empty, 2 pad value 0 or > 16, 3 a pad byte differs) and the model's out-of-range panic
+   (src[len(src)-unpadding:] with unpadding > len(src)) *)
+Theorem C11_leaves_are_source :
+  (forall a b, gen_xor a b = Ok (xor a b)) /\ (forall src, gen_pkcs7Padding src = Ok (pkcs7Padding src)) /\
+  (forall src, gen_pkcs7UnPadding src = pkcs7UnPadding src).
+Proof. split; [exact gen_xor_eq |]. split; [exact gen_pkcs7Padding_eq | exact gen_pkcs7UnPadding_eq]. Qed.
+Print Assumptions C11_leaves_are_source.
+
+(* 9c. SetIV and the package variables: BlockSize in SetIV, the literal sequence of SetIV (no semantic tie:
+   positional), and: IV is the only package-level variable of sm4.go besides its mutex ivMu and the constant tables
+   (what record pkg assumes); the padding of the source in closed form *)
 Theorem C11_source_constants :
-  (forall src, pkcs7Padding src =
-     let padding := nlit gen_lits_pkcs7Padding 0 - length src mod nlit gen_lits_pkcs7Padding 1 in
-     src ++ repeat (N.of_nat padding mod 256)%N padding) /\
+  (forall src, gen_pkcs7Padding src = Ok (let padding := 16 - length src mod 16 in src ++ repeat (N.of_nat padding mod 256)%N padding)) /\
   (forall iv pk, SetIV iv pk = if negb (Nat.eqb (length iv) (nlit gen_lits_SetIV 0)) then (Err 1, pk) else (Ok Datatypes.tt, mkPkg iv)) /\
-  (forall data i, blk data i = firstn (nlit gen_lits_Sm4Cbc 9) (skipn (nlit gen_lits_Sm4Cbc 6 * i) data)) /\
-  gen_lits_pkcs7Padding = [16; 16]%N /\ gen_lits_pkcs7UnPadding = [0; 1; 16; 0; 0]%N /\ gen_lits_SetIV = [16]%N /\
+  gen_lits_SetIV = [16]%N /\
   gen_pkg_vars_sm4 = sm4_pkg_vars_expected (* "IV", "ivMu", "fk", "ck", "sbox", "sbox0", "sbox1", "sbox2", "sbox3" *).
 Proof.
-  split; [exact pkcs7Padding_at_source|]. split; [exact SetIV_at_source|].
-  split; [intros data i; apply (helpers_block_at_source data i)|]. repeat split; reflexivity.
+  split; [exact gen_pkcs7Padding_eq|]. split; [exact SetIV_at_source|]. repeat split; reflexivity.
 Qed.
 Print Assumptions C11_source_constants.
 
-(* ... and the complete literal sequences of the mode helpers *)
-Theorem C11_source_literals_frozen :
-  gen_lits_Sm4Ecb = [16; 0; 16; 16; 16; 16; 16; 16; 16; 16; 0; 16; 16; 16; 16; 16; 16; 16; 16]%N /\
-  gen_lits_Sm4Cbc = [16; 16; 0; 16; 16; 16; 16; 16; 16; 16; 16; 0; 16; 16; 16; 16; 16; 16; 16; 16]%N /\
-  length gen_lits_Sm4CFB = 43 /\ length gen_lits_Sm4OFB = 43 /\ gen_lits_xor = [0%N].
-Proof. repeat split; reflexivity. Qed.
+(* ... the literal sequence of the one function that has no semantic tie (all others: 9a, 9b) *)
+Theorem C11_source_literals_frozen : gen_lits_SetIV = [16]%N.
+Proof. exact lits_modes_frozen. Qed.
 Print Assumptions C11_source_literals_frozen.
 
 (* ---- non-vacuity: SM4 instances, evaluated ------------------------------------------------------------------------ *)
